@@ -731,7 +731,8 @@ def random_case(rng):
     if rng.random() < 0.3:
         for t, rn in enumerate(rng.sample(resn, rng.randint(1, 2))):
             names = ["a%d" % (j + 1) for j in range(5)]
-            asg = {a: rng.choice(["", "", "N%dA" % t, "N%dB" % t, "N%dC" % t]) for a in names[:rng.randint(2, 5)]}
+            # the new residue names come from one pool: different split strings may create the same name
+            asg = {a: rng.choice(["", "NA", "NA", "NB", "NC"]) for a in names[:rng.randint(2, 5)]}
             parts = [{"nn": nn, "atoms": rng.sample([a for a in asg if asg[a] == nn], len([a for a in asg if asg[a] == nn]))} for nn in sorted(set(asg.values())) if nn]
             if parts:
                 case["split"].append({"rn": rn, "parts": parts})
@@ -814,7 +815,7 @@ def run(tier):
     ck.rule = ("S->I: every case of the families of spec/MC_Select.tla (molecule lists of length 1..%d over 3 names x block header name/lo/hi in 0..5; "
                "residue-name sequences of length 1..4 x directive name/lo/hi; two overlapping/adjacent blocks and residue lines; all 16 omission "
                "patterns of -start / -lig host / -lig ligand specifications x values; every assignment of the atoms of a 2-4 atom residue to "
-               "{stay, X, Y}; options addressing split residues) rendered to .top/.bld/option strings and run through the real code; a case is "
+               "{stay, X, Y}; two split strings creating the same new residue name in both orders on every chain of 3-4 residues; options addressing split residues) rendered to .top/.bld/option strings and run through the real code; a case is "
                "distinct by its abstract input.  I->S: seeded random inputs beyond the bound (2-11 molecules over 5 names, 2-6 residues over 3+ "
                "names, 1-5 atoms, ranges to 9, several blocks/directives/options) judged by SelTrace" % (4 if quick else 5))
     ck.assumptions = [
@@ -896,8 +897,8 @@ def run(tier):
         raise c.MachineryError("an exported family case is outside InDomain")
     report(ck, todo, v, "S->I replay")
     # ---------------------------------------------------------------- 3. full gen_coords on a stratified subset
-    per = {"start": 12, "start2": 4, "lig": 16, "lig2": 3, "split": 8, "split2": 4, "combo": 5, "multi": 3, "res": 3, "mol": 3, "multir": 2} if quick else \
-          {"start": 60, "start2": 20, "lig": 120, "lig2": 8, "split": 60, "split2": 30, "combo": 20, "multi": 30, "res": 30, "mol": 30, "multir": 10}
+    per = {"start": 12, "start2": 4, "lig": 16, "lig2": 3, "split": 8, "split2": 4, "split3": 6, "combo": 5, "multi": 3, "res": 3, "mol": 3, "multir": 2} if quick else \
+          {"start": 60, "start2": 20, "lig": 120, "lig2": 8, "split": 60, "split2": 30, "split3": 40, "combo": 20, "multi": 30, "res": 30, "mol": 30, "multir": 10}
     byfam = {}
     for cs in cases:
         if any(l["k"] in ("dist", "pers") for l in cs["c"]["bld"]):
